@@ -93,8 +93,12 @@ func families(rng interface{ IntN(int) int }) []fam {
 	add := func(n string, f []byte) { out = append(out, fam{n, f}) }
 	for _, vl := range [][][2]uint16{nil, {{0x8100, 100}}, {{0x88a8, 200}, {0x8100, 300}}, {{0x8100, 200}, {0x8100, 300}}, {{0x88a8, 1}, {0x8100, 2}, {0x8100, 3}}} {
 		tag := fmt.Sprintf("vlan%d", len(vl))
-		for _, mt := range []byte{1, 3, 4, 7, 8} {
-			for _, pre := range [][]byte{nil, {0}, {0, 0, 0}, {0, 0, 0, 0, 0, 0}, {12, 2, 'h', 'i'}, {61, 7, 1, 2, 3, 4, 5, 6, 7}, {55, 4, 1, 3, 6, 15}, {50, 4, 10, 20, 30, 40}} {
+		for _, mt := range []byte{0, 1, 2, 3, 4, 5, 6, 7, 8, 9, 13, 255} {
+			pres := [][]byte{nil, {0}, {0, 0, 0}, {0, 0, 0, 0, 0, 0}, {12, 2, 'h', 'i'}, {61, 7, 1, 2, 3, 4, 5, 6, 7}, {55, 4, 1, 3, 6, 15}, {50, 4, 10, 20, 30, 40}}
+			if mt != 1 && mt != 3 && mt != 4 && mt != 7 && mt != 8 {
+				pres = [][]byte{nil, {0, 0, 0}} // the other message types: only at two of the inspected offsets
+			}
+			for _, pre := range pres {
 				add(fmt.Sprintf("dhcp-%s-type%d-pre%d", tag, mt, len(pre)), cplane.Eth(bc, cliMAC, 0x0800, vl, cplane.IPv4(net.IPv4zero, net.IPv4bcast, 17, 5, cplane.UDP(68, 67, dhcpPayload(mt, pre, nil, 64, 6)))))
 			}
 		}
@@ -338,6 +342,18 @@ func judge(ps progSpec, state string, fname string, frame []byte, res *cplane.Re
 	if deep {
 		run.Nontrivial(fmt.Sprintf("%s|%s|%s|%d|%d", ps.prog, state, fname, v, fd/16))
 	}
+	if ps.obj == "dhcp_fastpath" && v == 3 {
+		// a transmitted reply is an action: only a BOOTREQUEST that is a DHCPDISCOVER or DHCPREQUEST may be answered
+		mt, ok := dhcpRequestType(frame)
+		run.Count("fastpath_tx_judged_for_message_type", 1)
+		if !ok || (mt != 1 && mt != 3) {
+			cls := "not-a-dhcp-request"
+			if ok {
+				cls = fmt.Sprintf("message-type-%d", mt)
+			}
+			run.Violation("bpf/dhcp_fastpath.c:dhcp_fastpath_prog", "acts-only-on-answerable-requests", "answered-"+cls, fmt.Sprintf("XDP_TX for a frame that is not a DHCPDISCOVER/DHCPREQUEST (independent parse: ok=%v type=%d) [%s, %d bytes, maps %s]", ok, mt, fname, len(frame), state), wit())
+		}
+	}
 	if fd < 0 {
 		return
 	}
@@ -566,4 +582,50 @@ func TestUnboundIsOtherTraffic(t *testing.T) {
 			}
 		}
 	}
+}
+
+// dhcpRequestType walks the frame independently of the program (Ethernet with any number of 802.1Q/802.1ad tags,
+// IPv4 with options, UDP, BOOTP, option list) and returns the DHCP message type of a BOOTREQUEST.
+func dhcpRequestType(f []byte) (byte, bool) {
+	off := 12
+	for off+4 <= len(f) && (binary.BigEndian.Uint16(f[off:]) == 0x8100 || binary.BigEndian.Uint16(f[off:]) == 0x88a8) {
+		off += 4
+	}
+	if off+2 > len(f) || binary.BigEndian.Uint16(f[off:]) != 0x0800 {
+		return 0, false
+	}
+	ip := f[off+2:]
+	if len(ip) < 20 || ip[0]>>4 != 4 {
+		return 0, false
+	}
+	ihl := int(ip[0]&0xf) * 4
+	if ihl < 20 || len(ip) < ihl+8 || ip[9] != 17 {
+		return 0, false
+	}
+	bp := ip[ihl+8:]
+	if len(bp) < 240 || bp[0] != 1 || binary.BigEndian.Uint32(bp[236:]) != 0x63825363 {
+		return 0, false
+	}
+	o := bp[240:]
+	for i := 0; i < len(o); {
+		switch c := o[i]; {
+		case c == 0:
+			i++
+		case c == 255:
+			return 0, false
+		default:
+			if i+1 >= len(o) {
+				return 0, false
+			}
+			n := int(o[i+1])
+			if i+2+n > len(o) {
+				return 0, false
+			}
+			if c == 53 && n == 1 {
+				return o[i+2], true
+			}
+			i += 2 + n
+		}
+	}
+	return 0, false
 }
